@@ -773,11 +773,11 @@ class Fn:
             if b.get("noreturn"):
                 continue
             t = b.get("term")
-            two = t and len(b["succs"]) == 2
+            two = t and len(b["succs"]) == 2 and t.get("kind") != "SwitchStmt"
             cond = sa.effective_cond(t) if two else None
             pre[bid] = dict(st)
-            if t and len(b["succs"]) > 2:
-                tags, _ = self.mentioned_tags(t.get("cond") or {}, st)
+            if t and not two and len(b["succs"]) >= 2:
+                tags, _ = self.mentioned_tags(t.get("cond") or t.get("switch_cond") or {}, st)
                 self.blur(st, tags, branch=bid)
             for si, s in enumerate(b["succs"]):
                 if not isinstance(s, int):
